@@ -124,7 +124,7 @@ def import_closure(roots):
 def forbidden_tokens(pid=None):
     """sorry / admit / own axioms / native_decide … in the files the property's theorems and the driver depend on"""
     hits = []
-    roots = ["Driver.Main"] + (["PepperProps." + pid] if pid else [])
+    roots = ["Driver.Main"] + (["PepperProps." + pid] + ["PepperProps." + n for n in extra_modules(pid)] if pid else [])
     files = import_closure(roots)
     for m, p in sorted(files.items()):
         with open(p) as f:
@@ -132,6 +132,15 @@ def forbidden_tokens(pid=None):
         for mm in FORBIDDEN.finditer(src):
             hits.append("%s: %s" % (os.path.relpath(p, LEAN), mm.group(0).strip()))
     return hits
+
+
+# supporting theorem modules (text-level parser models) that are re-checked and audited together with a property:
+# PepperProps/<Name>.lean, namespace Pepper.<Name>.Props
+EXTRA_MODULES = {"C01": ["ParseComp"], "C02": ["ParseSys"], "C09": ["ParseComp", "ParseSys"], "C04": ["ParsePil"], "C06": ["ParsePil"]}
+
+
+def extra_modules(pid):
+    return [n for n in EXTRA_MODULES.get(pid, []) if os.path.exists(os.path.join(LEAN, "PepperProps", n + ".lean"))]
 
 
 def prop_theorems(pid):
@@ -167,14 +176,22 @@ def lean_prepare(pid, need_driver=True, leanchecker=False):
         targets = []
         prop_mod = "PepperProps." + pid
         st.theorems = prop_theorems(pid)
-        rc, out, err = run(["lake", "build", prop_mod], cwd=LEAN, timeout=3000)
-        st.log += out + err
-        prop_ok = (rc == 0)
-        if not prop_ok:
-            errs = re.findall(r"error: (\S+?\.lean):(\d+):\d+: (.*)", out + err)
-            detail = "; ".join("%s:%s %s" % e for e in errs[:6]) or (out + err)[-1200:]
-            st.broken.append({"kind": "theorem", "name": prop_mod, "detail": detail,
-                              "failed_at": sorted({"%s:%s" % (e[0], e[1]) for e in errs})[:20]})
+        full_name = {t: "Pepper.%s.%s" % (pid, t) for t in st.theorems}
+        extras = extra_modules(pid)
+        for n in extras:
+            for t in prop_theorems(n):
+                st.theorems.append(n + "." + t)
+                full_name[n + "." + t] = "Pepper.%s.Props.%s" % (n, t)
+        prop_ok = True
+        for mod in [prop_mod] + ["PepperProps." + n for n in extras]:
+            rc, out, err = run(["lake", "build", mod], cwd=LEAN, timeout=3000)
+            st.log += out + err
+            if rc != 0:
+                prop_ok = False
+                errs = re.findall(r"error: (\S+?\.lean):(\d+):\d+: (.*)", out + err)
+                detail = "; ".join("%s:%s %s" % e for e in errs[:6]) or (out + err)[-1200:]
+                st.broken.append({"kind": "theorem", "name": mod, "detail": detail,
+                                  "failed_at": sorted({"%s:%s" % (e[0], e[1]) for e in errs})[:20]})
         if need_driver:
             rc, out, err = run(["lake", "build", "pepperd"], cwd=LEAN, timeout=3000)
             st.log += out + err
@@ -188,11 +205,13 @@ def lean_prepare(pid, need_driver=True, leanchecker=False):
             af = os.path.join(BUILD, "audit_%s.lean" % pid)
             with open(af, "w") as f:
                 f.write("import %s\n" % prop_mod)
+                for n in extras:
+                    f.write("import PepperProps.%s\n" % n)
                 for t in st.theorems:
-                    f.write("#print axioms Pepper.%s.%s\n" % (pid, t))
+                    f.write("#print axioms %s\n" % full_name[t])
             rc, out, err = run(["lake", "env", "lean", af], cwd=LEAN, timeout=900)
             for t in st.theorems:
-                full = "Pepper.%s.%s" % (pid, t)
+                full = full_name[t]
                 m = re.search(r"'%s' depends on axioms: \[(.*?)\]" % re.escape(full), out, flags=re.S)
                 if m:
                     ax = [a.strip() for a in m.group(1).replace("\n", " ").split(",") if a.strip()]
